@@ -247,50 +247,77 @@ func inQuotes(c *Ctx, fn *ssa.Function, call ssa.Instruction) bool {
 // other conditions branch both ways. Returns the event (call) sequences.
 func byteEvents(from *ssa.BasicBlock, stop func(*ssa.BasicBlock) bool, isSubject func(ssa.Value) bool, b byte, event func(ssa.Instruction) string) [][]string {
 	var out [][]string
-	var rec func(blk *ssa.BasicBlock, ev []string, depth int)
-	rec = func(blk *ssa.BasicBlock, ev []string, depth int) {
-		if depth > 60 {
+	type frame struct {
+		blk   *ssa.BasicBlock
+		idx   int
+		subj  func(ssa.Value) bool
+		outer bool
+	}
+	var run func(blk *ssa.BasicBlock, idx int, subj func(ssa.Value) bool, ev []string, stack []frame, depth int)
+	run = func(blk *ssa.BasicBlock, idx int, subj func(ssa.Value) bool, ev []string, stack []frame, depth int) {
+		if depth > 80 {
 			out = append(out, append(ev, "…"))
 			return
 		}
-		if stop(blk) && depth > 0 {
+		if len(stack) == 0 && idx == 0 && stop(blk) && depth > 0 {
 			out = append(out, ev)
 			return
 		}
-		for _, in := range blk.Instrs {
+		for k := idx; k < len(blk.Instrs); k++ {
+			in := blk.Instrs[k]
 			if e := event(in); e != "" {
 				ev = append(append([]string{}, ev...), e)
 			}
 			switch x := in.(type) {
+			case *ssa.Call:
+				// an eligible helper that receives the subject byte is explored as if inlined
+				if h := helperOf(x); h != nil && len(stack) < 3 {
+					var sp *ssa.Parameter
+					for ai, a := range x.Call.Args {
+						if subj(a) && ai < len(h.Params) {
+							sp = h.Params[ai]
+						}
+					}
+					if sp != nil {
+						ns := append(append([]frame{}, stack...), frame{blk, k + 1, subj, true})
+						run(h.Blocks[0], 0, func(v ssa.Value) bool { return v == ssa.Value(sp) }, ev, ns, depth+1)
+						return
+					}
+				}
 			case *ssa.Return:
+				if len(stack) > 0 {
+					top := stack[len(stack)-1]
+					run(top.blk, top.idx, top.subj, ev, stack[:len(stack)-1], depth+1)
+					return
+				}
 				out = append(out, append(ev, "return"))
 				return
 			case *ssa.Panic:
 				out = append(out, append(ev, "panic"))
 				return
 			case *ssa.If:
-				if bo, ok := x.Cond.(*ssa.BinOp); ok && isSubject(bo.X) {
-					if k, ok := ConstInt(bo.Y); ok {
+				if bo, ok := x.Cond.(*ssa.BinOp); ok && subj(bo.X) {
+					if kk, ok := ConstInt(bo.Y); ok {
 						v := int64(b)
-						res := map[token.Token]bool{token.EQL: v == k, token.NEQ: v != k, token.LSS: v < k, token.LEQ: v <= k, token.GTR: v > k, token.GEQ: v >= k}[bo.Op]
+						res := map[token.Token]bool{token.EQL: v == kk, token.NEQ: v != kk, token.LSS: v < kk, token.LEQ: v <= kk, token.GTR: v > kk, token.GEQ: v >= kk}[bo.Op]
 						if res {
-							rec(blk.Succs[0], ev, depth+1)
+							run(blk.Succs[0], 0, subj, ev, stack, depth+1)
 						} else {
-							rec(blk.Succs[1], ev, depth+1)
+							run(blk.Succs[1], 0, subj, ev, stack, depth+1)
 						}
 						return
 					}
 				}
-				rec(blk.Succs[0], ev, depth+1)
-				rec(blk.Succs[1], ev, depth+1)
+				run(blk.Succs[0], 0, subj, ev, stack, depth+1)
+				run(blk.Succs[1], 0, subj, ev, stack, depth+1)
 				return
 			case *ssa.Jump:
-				rec(blk.Succs[0], ev, depth+1)
+				run(blk.Succs[0], 0, subj, ev, stack, depth+1)
 				return
 			}
 		}
 	}
-	rec(from, nil, 0)
+	run(from, 0, isSubject, nil, nil, 0)
 	return out
 }
 
@@ -311,10 +338,33 @@ func c1Escaper(c *Ctx, rule string) {
 		return
 	}
 	body := header.Succs[0]
-	isSubj := func(v ssa.Value) bool { return Desc(v) == "s[φi]" }
+	sName := fn.Params[3].Name()
+	bufName := fn.Params[2].Name()
+	idxPhi := ""
+	for _, in := range header.Instrs {
+		if ph, ok := in.(*ssa.Phi); ok {
+			for _, e := range ph.Edges {
+				if bo, ok := e.(*ssa.BinOp); ok && bo.Op == token.ADD && bo.X == ssa.Value(ph) {
+					if k, ok := ConstInt(bo.Y); ok && k == 1 {
+						idxPhi = Desc(ph)
+					}
+				}
+			}
+		}
+	}
+	subjD := sName + "[" + idxPhi + "]"
+	isSubj := func(v ssa.Value) bool { return Desc(v) == subjD }
+	norm := func(d string) string {
+		// inside an extracted helper the byte is a parameter: render it like the original expression
+		return d
+	}
+	_ = norm
 	event := func(in ssa.Instruction) string {
 		cl, ok := in.(*ssa.Call)
 		if !ok {
+			return ""
+		}
+		if helperOf(cl) != nil {
 			return ""
 		}
 		d := Desc(cl.Call.Value)
@@ -326,22 +376,31 @@ func c1Escaper(c *Ctx, rule string) {
 		}
 		if f := CalleeFunc(cl); f != nil && f.Pkg() != nil && f.Pkg().Path() == "go.uber.org/zap/buffer" {
 			a := Args(cl)
-			if Desc(a[0]) != "buf" {
+			var d0, d1 string
+			Bound(func() { d0, d1 = Desc(a[0]), Desc(a[1]) })
+			if d0 != bufName {
 				return "?" + f.Name()
 			}
 			if b, ok := constBytes(a[1]); ok {
 				return f.Name() + "(" + string(b) + ")"
 			}
-			return f.Name() + "(" + Desc(a[1]) + ")"
+			return f.Name() + "(" + d1 + ")"
 		}
 		return ""
 	}
 	stop := func(b *ssa.BasicBlock) bool { return b == header }
-	flush := "flush(s[φlast:φi])"
+	lastPhi := ""
+	for _, in := range header.Instrs {
+		if ph, ok := in.(*ssa.Phi); ok && Desc(ph) != idxPhi {
+			lastPhi = Desc(ph)
+		}
+	}
+	flush := "flush(" + sName + "[" + lastPhi + ":" + idxPhi + "])"
+	sub := subjD
 	want := func(b byte) [][]string {
 		switch {
 		case b == '"' || b == '\\':
-			return [][]string{{flush, "AppendByte(\\)", "AppendByte(s[φi])"}}
+			return [][]string{{flush, "AppendByte(\\)", "AppendByte(" + sub + ")"}}
 		case b == '\n':
 			return [][]string{{flush, "AppendByte(\\)", "AppendByte(n)"}}
 		case b == '\r':
@@ -349,7 +408,7 @@ func c1Escaper(c *Ctx, rule string) {
 		case b == '\t':
 			return [][]string{{flush, "AppendByte(\\)", "AppendByte(t)"}}
 		case b < 0x20:
-			return [][]string{{flush, "AppendString(\\u00)", `AppendByte("0123456789abcdef"[(s[φi] >> 4)])`, `AppendByte("0123456789abcdef"[(s[φi] & 15)])`}}
+			return [][]string{{flush, "AppendString(\\u00)", `AppendByte("0123456789abcdef"[(` + sub + ` >> 4)])`, `AppendByte("0123456789abcdef"[(` + sub + ` & 15)])`}}
 		case b < 0x80:
 			return [][]string{{}}
 		default:
@@ -386,10 +445,10 @@ func c1Escaper(c *Ctx, rule string) {
 	}
 	// tail: remaining bytes appended after the loop
 	tail := byteEvents(header.Succs[1], func(*ssa.BasicBlock) bool { return false }, isSubj, 0, event)
-	c.Check(len(tail) == 1 && strings.Join(tail[0], ",") == "flush(s[φlast:]),return", rule, name, "tail-flushed", fn.Pos(), "after the scan the unescaped tail s[last:] is appended (%v)", tail)
+	c.Check(len(tail) == 1 && strings.Join(tail[0], ",") == "flush("+sName+"["+lastPhi+":]),return", rule, name, "tail-flushed", fn.Pos(), "after the scan the unescaped tail s[last:] is appended (%v)", tail)
 	// loop bound
 	iff, _ := header.Instrs[len(header.Instrs)-1].(*ssa.If)
-	c.Check(iff != nil && Desc(iff.Cond) == "(φi < len(s))", rule, name, "scans-to-end", fn.Pos(), "the scan covers every index below len(s)")
+	c.Check(iff != nil && Desc(iff.Cond) == "("+idxPhi+" < len("+sName+"))", rule, name, "scans-to-end", fn.Pos(), "the scan covers every index below len(s)")
 }
 
 func firstN(s []string, n int) []string {
@@ -508,7 +567,35 @@ func c1Pairing(c *Ctx, rule string) {
 		if app != nil {
 			if h := LoopHeader(app.Block()); h != nil {
 				if iff, isIf := h.Instrs[len(h.Instrs)-1].(*ssa.If); isIf {
-					ok = Desc(iff.Cond) == "(φi < enc.openNamespaces)"
+					if bo, isB := iff.Cond.(*ssa.BinOp); isB {
+						ph, isPhi := bo.X.(*ssa.Phi)
+						if isPhi {
+							var seed ssa.Value
+							var step int64
+							for _, e := range ph.Edges {
+								if b2, ok := e.(*ssa.BinOp); ok && b2.X == ssa.Value(ph) {
+									k, _ := ConstInt(b2.Y)
+									if b2.Op == token.ADD {
+										step = k
+									} else if b2.Op == token.SUB {
+										step = -k
+									}
+								} else {
+									seed = e
+								}
+							}
+							rc := cn.Params[0].Name()
+							n := rc + ".openNamespaces"
+							sv, seedIsC := ConstInt(seed)
+							bound, boundIsC := ConstInt(bo.Y)
+							switch {
+							case step == 1 && seedIsC && sv == 0 && bo.Op == token.LSS && Desc(bo.Y) == n:
+								ok = true // for i := 0; i < open; i++
+							case step == -1 && Desc(seed) == n && bo.Op == token.GTR && boundIsC && bound == 0:
+								ok = true // for pending := open; pending > 0; pending--
+							}
+						}
+					}
 				}
 			}
 		}
@@ -769,8 +856,11 @@ func c1Separators(c *Ctx, rule string) {
 		// empty buffer: no separator
 		okEmpty := false
 		for _, r := range Returns(sep) {
-			if containsS(AtomStrings(Guards(r)), "(Len(enc.buf) - 1) < 0") {
-				okEmpty = true
+			for _, a := range AtomStrings(Guards(r)) {
+				switch a {
+				case "(Len(enc.buf) - 1) < 0", "Len(enc.buf) == 0", "len(Bytes(enc.buf)) == 0", "Len(enc.buf) < 1":
+					okEmpty = true
+				}
 			}
 		}
 		c.Check(okEmpty, rule, sep.String(), "empty-buffer", sep.Pos(), "an empty buffer gets no separator")
@@ -975,11 +1065,17 @@ func c1Errors(c *Ctx, rule string) {
 		// the err phi and its test
 		var errPhi *ssa.Phi
 		var test *ssa.If
+		var errBlock *ssa.BasicBlock
 		for _, b := range addTo.Blocks {
 			if iff, ok := b.Instrs[len(b.Instrs)-1].(*ssa.If); ok {
-				if bo, ok := iff.Cond.(*ssa.BinOp); ok && bo.Op == token.NEQ && IsNilConst(bo.Y) {
-					if ph, ok := bo.X.(*ssa.Phi); ok && ph.Comment == "err" {
+				if bo, ok := iff.Cond.(*ssa.BinOp); ok && (bo.Op == token.NEQ || bo.Op == token.EQL) && IsNilConst(bo.Y) {
+					if ph, ok := bo.X.(*ssa.Phi); ok && ph.Type().String() == "error" {
 						errPhi, test = ph, iff
+						if bo.Op == token.NEQ {
+							errBlock = b.Succs[0]
+						} else {
+							errBlock = b.Succs[1]
+						}
 					}
 				}
 			}
@@ -1006,11 +1102,11 @@ func c1Errors(c *Ctx, rule string) {
 			}
 			// the error branch adds <key>Error
 			okAdd := false
-			for _, in := range test.Block().Succs[0].Instrs {
+			for _, in := range errBlock.Instrs {
 				if cl, ok := in.(*ssa.Call); ok && cl.Call.IsInvoke() && cl.Call.Method.Name() == "AddString" {
 					k := Desc(cl.Call.Args[0])
 					v := Desc(cl.Call.Args[1])
-					okAdd = strings.HasPrefix(k, `Sprintf("%sError"`) && v == "Error(φerr)"
+					okAdd = (strings.HasPrefix(k, `Sprintf("%sError"`) || k == `(f.Key + "Error")`) && v == "Error("+Desc(errPhi)+")"
 				}
 			}
 			c.Check(okAdd, rule, name, "adds-key-error", test.Pos(), "a non-nil error becomes enc.AddString(key+\"Error\", err.Error())")
